@@ -70,10 +70,12 @@ def _jitter():
         S.rng_pid = pid
         S.rng = random.Random(hash((S.pseed, pid - S.parent)))
     r = S.rng.random()
-    if r < .25:
+    if r < .3:
         return
-    if r > .97:
-        time.sleep(0)  # real yield now and then
+    if r > .98:
+        os.sched_yield()             # now and then give the cpu away
+    # busy-wait rather than sleep: on a saturated machine a sleeping process pays milliseconds of
+    # wake-up latency per jitter point, a spinning one pays what it asked for
     _spin(S.rng.random() * S.jitter_us)
 
 
@@ -314,7 +316,7 @@ class InjectedFault(RuntimeError):
 
 def _range_init(self, stop):
     S.orig['range_init'](self, stop)
-    self._c16_rid = S.nrange
+    self._c16_rid = f'{os.getpid()}.{S.nrange}'   # unique also for ranges created inside forked workers
     S.nrange += 1
     self._c16_me = None
     self._c16_arrived = _REAL_RAWVALUE('i', 0)
@@ -360,7 +362,7 @@ def _range_next(self):
         if pid == S.parent and S.parent_delay_us:
             time.sleep(S.parent_delay_us / 1e6)
     fault = S.fault
-    if fault and fault['kind'] == 'kill_before' and pid != S.parent and _peek(self) >= fault['at'] and _victim(fault['flag']):
+    if fault and fault['kind'] == 'kill_before' and pid != S.parent and not S.held and _peek(self) >= fault['at'] and _victim(fault['flag']):
         _log(f'F {pid} kill_before {rid} {_peek(self)}')
         os.kill(pid, signal.SIGKILL)
         time.sleep(10)
@@ -374,7 +376,7 @@ def _range_next(self):
     _log(f'c {rid} {pid} {i}')
     if fault and i >= fault['at']:
         kind = fault['kind']
-        if kind in ('raise', 'kill') and pid != S.parent and _victim(fault['flag']):
+        if kind in ('raise', 'kill') and pid != S.parent and not S.held and _victim(fault['flag']):
             _log(f'F {pid} {kind} {rid} {i}')
             if kind == 'kill':
                 os.kill(pid, signal.SIGKILL)
